@@ -1,9 +1,14 @@
+HS_NOTE = "trusted: hash-seed seam (interposed getrandom + vendored foldhash), ASLR switched off plus seeded heap-layout salts for address-dependent ordering; a sweep samples seeds, it does not enumerate orders"
+HS_TECH = "deterministic simulation with an owned nondeterminism source: the same program re-executed on fresh threads under swept hash seeds and heap-layout salts, outputs compared byte for byte (plus a small reference model where the statement has a functional clause)"
+add("C11","E-HS","exploration","Generated workspaces rich in cross-file ties (globals assigned conflicting types in several files, partial classes, alias/enum redefinitions, require cycles) registered in one fixed order through the batch path, optionally followed by a short history, executed under 8 sweep points (hash seeds for std RandomState and hashbrown/foldhash; heap-layout salts); the canonical observation must be identical at every point.",HS_NOTE,HS_TECH)
+add("C32","E-HS","exploration","1-3 generated configuration objects over the real key space, every key spelled flat or nested at random, loaded in order through load_configs under 16 sweep points: the outcome (serialized Emmyrc, or panic) must be identical everywhere, and must equal an independent reference merge (flatten, later scalar wins, arrays appended without duplicates). Value-and-prefix keys are judged for determinism only.",HS_NOTE,HS_TECH)
+add("C35","E-HS","exploration","Generated workspaces written to a scratch directory (uniquely named classes/enums/aliases/globals/modules, some split across files, some in a library root) exported with the real run_doc_cli(json), std library loaded, under 6 sweep points; output bytes must be identical; the export must list every main-workspace type exactly once and nothing from the library root or the std library.",HS_NOTE,HS_TECH)
+ENGINES_EXTRA = [
+ {"name":"E-HS","path":"sim/crates/an-sim (sweep.rs)","serves_properties":["C11","C32","C35"],"kind_free_text":"same program re-executed under many owned hash seeds and heap layouts"},
+]
 PENDING.update({
 "C04":"E-AN parse-history check not built yet in this commit (planned, see DESIGN.md §5 C04)",
-"C11":"E-HS hash-seed sweep not built yet in this commit (planned, see DESIGN.md §5 C11)",
-"C32":"E-HS config-merge sweep not built yet in this commit (planned, see DESIGN.md §5 C32)",
 "C33":"E-AN require-resolution check not built yet in this commit (planned, see DESIGN.md §5 C33)",
-"C35":"E-HS doc-export sweep not built yet in this commit (planned, see DESIGN.md §5 C35)",
 "C36":"E-LS runtime harness for emmylua_check not built yet in this commit (planned, see DESIGN.md §5 C36)",
 "C38":"E-MIRI harness not built yet in this commit (planned, see DESIGN.md §5 C38)",
 "C39":"E-FS harness not built yet in this commit (planned, see DESIGN.md §5 C39)",
